@@ -255,6 +255,22 @@ def p_runs_subquery(e, n):
     return len(list(q.evaluate())) == 1
 
 
+@predicate
+def p_runs_subquery_inside(e, n):
+    """like p_runs_subquery, but the nested query (which uses a Predicate subclass and HasType) is also EVALUATED while the
+    block this function opened is still open"""
+    from entity_query_language import an, entity, let, symbolic_mode, HasType
+    with symbolic_mode():
+        x = let(Ent, domain=[e])
+        q = an(entity(x, x.a >= n, IsBig(x), HasType(x, Ent)))
+        found = list(q.evaluate())
+    return len(found) == 1
+
+
+def py_p_runs_subquery_inside(e, n):
+    return e.a >= n and e.k >= 2
+
+
 def py_p_runs_subquery(e, n):
     return e.a >= n
 
@@ -288,7 +304,7 @@ class BLess(Predicate):
         return self.e.b < self.f.b
 
 
-FUNC_PREDS = {"p_val_eq": (p_val_eq, py_p_val_eq), "p_n_le_a": (p_n_le_a, py_p_n_le_a), "p_runs_subquery": (p_runs_subquery, py_p_runs_subquery), "p_flaky": (p_flaky, py_p_flaky), "p_a_ge": (p_a_ge, py_p_a_ge), "p_a_lt": (p_a_lt, py_p_a_lt), "p_same_b": (p_same_b, py_p_same_b)}
+FUNC_PREDS = {"p_runs_subquery_inside": (p_runs_subquery_inside, py_p_runs_subquery_inside), "p_val_eq": (p_val_eq, py_p_val_eq), "p_n_le_a": (p_n_le_a, py_p_n_le_a), "p_runs_subquery": (p_runs_subquery, py_p_runs_subquery), "p_flaky": (p_flaky, py_p_flaky), "p_a_ge": (p_a_ge, py_p_a_ge), "p_a_lt": (p_a_lt, py_p_a_lt), "p_same_b": (p_same_b, py_p_same_b)}
 CLASS_PREDS = {"IsBig": (IsBig, lambda e: e.k >= 2), "BLess": (BLess, lambda e, f: e.b < f.b)}
 
 
